@@ -1,6 +1,7 @@
 import WfProofs.LifecycleSafe
 import WfModel.GenLifecycleShape
 import WfProofs.LifecycleRow
+import WfProofs.LifecycleCoarse
 import WfProps.C03
 /-!
 # C26 — idle release and resume never lose an event or double-run a workflow
@@ -110,6 +111,20 @@ theorem C26_released_only_when_quiet (tau : Nat) (acts : List Act)
     (hIdle : Along idleSoundAt (init tau) acts) (hWin : Along windowFreeAt (init tau) acts) :
     (run (init tau) acts).busyReleases = 0 :=
   (Safe.run acts (init tau) (Safe.init tau) (Inv.init tau) hIdle hWin).busy
+
+/-- **stock stores** (`MemoryWorkflowStore`, `SqliteWorkflowStore`: no store call ever suspends, so inside a lock
+section every `idle_since` access is immediately followed by the action that uses it — `coarse` schedules):
+`WindowFree` holds by construction, and truthful idle announcements (C03) alone give: nothing lost, released only
+when quiet, never early. -/
+theorem C26_no_lost_send_atomic_store (tau : Nat) (acts : List Act) (hc : coarse acts = true)
+    (hIdle : Along idleSoundAt (init tau) acts) :
+    (run (init tau) acts).lost = [] ∧ (run (init tau) acts).busyReleases = 0 ∧ (run (init tau) acts).earlyReleases = 0 ∧
+    Along windowFreeAt (init tau) acts := by
+  have hs := coarse_safe tau acts hc hIdle
+  exact ⟨hs.lost, hs.busy, hs.early, coarse_windowFree acts (init tau) hc (by simp [Lifecycle.init, S.inWindow])⟩
+
+/-- non-vacuity: the release / reload / second-sender schedule above is such a schedule, with truthful announcements -/
+example : coarse C26.exActs = true ∧ Along idleSoundAt (init 200) C26.exActs := by decide
 
 /-- the unconditional form of the two theorems above -/
 def C26_no_lost_send_statement : Prop :=
